@@ -801,12 +801,34 @@ func (ssn *Session) Allocate(task *api.TaskInfo, nodeInfo *api.NodeInfo) (err er
 			if err := ssn.dispatch(task); err != nil {
 				klog.Errorf("Failed to dispatch task <%v/%v>: %v",
 					task.Namespace, task.Name, err)
+				ssn.undoAllocation(job, task)
 				return err
 			}
 		}
 	}
 
 	return nil
+}
+
+// undoAllocation rolls back the session-side placement of a task whose bind
+// was refused, the way Statement.Commit does (Statement.unallocate), so that
+// a failed dispatch leaves no trace in the session.
+func (ssn *Session) undoAllocation(job *api.JobInfo, task *api.TaskInfo) {
+	job.UpdateTaskStatus(task, api.Pending)
+
+	if node, found := ssn.Nodes[task.NodeName]; found {
+		node.RemoveTask(task)
+	}
+
+	for _, eh := range ssn.eventHandlers {
+		if eh.DeallocateFunc != nil {
+			eh.DeallocateFunc(&Event{
+				Task: task,
+			})
+		}
+	}
+	task.NodeName = ""
+	task.JobAllocatedHyperNode = ""
 }
 
 // revertPlacement undoes the status change of a Pipeline/Allocate whose node
